@@ -141,13 +141,28 @@ def stage_passes(ctx, n):
                 e.set_host("h1")
                 q = FairMultiFIFOQueue()
                 un = upd.UpdateableNode(q, db.StorageNode.get(id=node.id))
-                for p in range(4):
-                    un.reinit(db.StorageNode.get(id=node.id))
-                    before = set(c.id for c in db.ArchiveFileCopy.select().where(db.ArchiveFileCopy.node == node.id, db.ArchiveFileCopy.has_file == "Y"))
-                    un.update()
+                # worker timing: "prompt" = the tasks of a pass are finished before the next pass; "late" = the worker is still
+                # busy when the next pass begins and finishes right after that pass has measured the free space (the pass
+                # found the node busy at its start)
+                timing = rng.choice(["prompt", "prompt", "late"])
+
+                def drain_all():
                     item = q.get(timeout=0.001)
                     while item is not None:
                         item[0](); q.task_done(item[1]); item = q.get(timeout=0.001)
+                real_ufs = un.update_free_space
+
+                def ufs_then_worker():
+                    real_ufs()
+                    if timing == "late":
+                        drain_all()
+                un.update_free_space = ufs_then_worker
+                for p in range(4 if timing == "prompt" else 7):
+                    un.reinit(db.StorageNode.get(id=node.id))
+                    before = set(c.id for c in db.ArchiveFileCopy.select().where(db.ArchiveFileCopy.node == node.id, db.ArchiveFileCopy.has_file == "Y"))
+                    un.update()
+                    if timing == "prompt" or p == 6:
+                        drain_all()
                     after = set(c.id for c in db.ArchiveFileCopy.select().where(db.ArchiveFileCopy.node == node.id, db.ArchiveFileCopy.has_file == "Y"))
                     deleted_per_pass.append(sorted(before - after))
                 final_free = free_now()
@@ -156,8 +171,8 @@ def stage_passes(ctx, n):
             removable_left = db.ArchiveFileCopy.select().where(db.ArchiveFileCopy.node == node.id, db.ArchiveFileCopy.has_file == "Y",
                                                                db.ArchiveFileCopy.wants_file == "M").count()
             all_deleted = [c for p_ in deleted_per_pass for c in p_]
-            ctx.count(f"passes:deleted={min(len(all_deleted), 3)}")
-            ctx.case(("passes", minimum, base_free, tuple(sorted(sizes.values())), tuple(map(tuple, deleted_per_pass))), nontrivial=bool(all_deleted),
+            ctx.count(f"passes:{timing}:deleted={min(len(all_deleted), 3)}")
+            ctx.case(("passes", timing, minimum, base_free, tuple(sorted(sizes.values())), tuple(map(tuple, deleted_per_pass))), nontrivial=bool(all_deleted),
                      sample={"minimum_GiB": minimum, "free_GiB_at_start": base_free / GiB, "deleted_per_pass": deleted_per_pass,
                              "free_GiB_at_end": final_free / GiB} if all_deleted and len(ctx.samples) < 6 else None)
             need0 = minimum * GiB - base_free
@@ -166,13 +181,13 @@ def stage_passes(ctx, n):
                               f"{all_deleted} were deleted", {"kind": "passes", "deleted_per_pass": deleted_per_pass})
             if need0 > 0:
                 if final_free < minimum * GiB and removable_left:
-                    ctx.violation("passes:not-cleaned", f"after 4 passes the node is still below its minimum ({final_free / GiB} < {minimum} GiB) "
+                    ctx.violation("passes:not-cleaned", f"after {4 if timing == 'prompt' else 7} passes (worker timing: {timing}) the node is still below its minimum ({final_free / GiB} < {minimum} GiB) "
                                   f"with {removable_left} removable copies left", {"kind": "passes", "deleted_per_pass": deleted_per_pass})
                 if all_deleted:
                     last = all_deleted[-1]
                     last_size = sizes[db.ArchiveFileCopy.get(id=last).file_id]
                     if final_free - last_size >= minimum * GiB:
-                        ctx.violation("passes:too-many", f"cleaning went on after the minimum was met: shortfall {need0 / GiB} GiB, deleted per pass "
+                        ctx.violation("passes:too-many", f"cleaning went on after the minimum was met (worker timing: {timing}): shortfall {need0 / GiB} GiB, deleted per pass "
                                       f"{deleted_per_pass} (sizes GiB {[sizes[db.ArchiveFileCopy.get(id=c).file_id] // GiB for c in all_deleted]}), "
                                       f"free at the end {final_free / GiB} GiB; without the last deletion the node would already be at "
                                       f"{(final_free - last_size) / GiB} GiB", {"kind": "passes", "deleted_per_pass": deleted_per_pass})
